@@ -625,6 +625,9 @@ pub fn run(tier: Tier, seed: u64) -> i32 {
     }
     local_engine(&rep, seed, tier);
     http_engine(&rep, seed, tier);
+    if tier == Tier::Thorough {
+        crate::miri::run_slices(&rep, "reader", 16, 80, "");
+    }
     if rep.counter("http.cases_with_cuts") == 0 || rep.counter("http.cases_ending_in_error") == 0 || rep.counter("local.cases_with_range_past_eof") == 0 {
         rep.broken("fault workload did not reach cuts / errors / EOF cases".into());
     }
